@@ -21,6 +21,18 @@ CLAIMED = {
     "C03": ("path-guard (must-pass-through edge) queries, provenance and who-may-write rules over go/ssa + AST uses",
             "every TagParser invocation is reached only on the not-banned edge of a lookup of the same name in the compiling set's ban map (banned edge returns an error); every template-named filter resolution (registry lookup, ApplyFilter with a stored name) is tied to a ban check before a successful return; sub-templates compile through the referring template's set (never the default-set shortcuts); Templates are constructed only by From* with the receiver set; ban maps are written only by BanTag/BanFilter behind freeze/existence/duplicate tests; every template-creating method sets the freeze flag first",
             "nothing of the statement is left to behaviour except that custom tags/filters registered by users are outside the engine", "DESIGN.md §3 C03"),
+    "C06": ("constant and provenance rules over go/ssa, call-graph reachability, constant-table check",
+            "the lexer's end-of-input marker lies outside the rune domain; emit rewrites token values only under a type test excluding TokenHTML and Val is the source slice input[start:pos]; one text node per HTML token holding that token, writing its Val changed only by flag-guarded trims; the comment tag's parser reaches no parsing function and its node does nothing; the templatetag table equals the specification and the node writes the looked-up value; tokenize() runs only on the !inVerbatim edge",
+            "lexer span arithmetic over arbitrary bytes, the concatenation homomorphism, acceptance of every verbatim placement (empty/adjacent verbatim blocks are known to fail, observable only by running the lexer)", "DESIGN.md §3 C06"),
+    "C09": ("effect analysis restricted to cycle/ifchanged nodes, path-guard polarity rules, loop-shape rules and linear-form (a*idx+b*count+c) evaluation of stored values over go/ssa",
+            "cycle/ifchanged keep state only in the execution context; ifequal/ifnotequal compare (first, second) and run then/else on opposite edges; if runs wrappers[i] on conditions[i] true and the else body only after the last false condition; firstof prints only a true argument and stops; for runs body/empty in their own callbacks with reversed/sorted in place; forloop fields equal their reference linear forms and conditions; IterateOrder passes an item-stepping induction variable and the item count; ifchanged evaluates all watched expressions without early exit and then replaces the remembered list",
+            "element order under reversed/sorted, nesting arithmetic, the rendered text", "DESIGN.md §3 C09"),
+    "C16": ("provenance/pairing rules on Error and Token constructions, role-derived field anchors, path-guard rules on the lexer's column bookkeeping over go/ssa",
+            "every compile-time Error construction sets a non-empty Filename; Line and Column always come from Line/Col of the same token, Error.Token is that token and execution errors take Filename from it; lexer tokens record the start-position fields (reset by emit/ignore from the running position) and the lexer's name; next/backup move pos and col by the same width and the column restarts consistently at a newline",
+            "line/column arithmetic as values (that a reported position really is where the token text is found)", "DESIGN.md §3 C16"),
+    "C18": ("unit inference (bytes vs characters) over go/ssa, idiom rules for rounding, constant-argument rules, cap/non-negativity path guards",
+            "in the listed sequence/string filters and the rune primitives no comparison/arithmetic mixes byte and character quantities and no string/[]rune is indexed with the wrong unit; widthratio rounds to nearest and computes current/max*width; number parsing/printing is base 10; Repeat counts, computed widths, float precisions and lorem counts are capped by a constant with an error edge and non-negative at the sink",
+            "the values of the integer/length-indexed filter families against their Django reference (slice bounds, widths, digit positions, date formats)", "DESIGN.md §3 C18"),
     "C07": ("constant-table extraction (grammar levels, operator sets, symbol table), SSA shape rules (loop vs self-call, case-label/Go-operator/operand-order agreement) and path-guard queries",
             "precedence levels and their operator sets, operand-parsing functions and associativity match the embedded grammar; unary sign/not consumed before the first term; parser/evaluator operator agreement; each case label computes with the Go operator it names, operands in written order, time comparisons with the named method pair; and/or evaluate the second operand only on the open edge of the first's truth; division/modulo guarded by a zero test with an error edge; longest-match symbol order; decimal/%f/True-False printing and base-10 parsing; lexer enters number/identifier/string states only after accepting their own character class",
             "numerical results of evaluation (values are never computed)", "DESIGN.md §3 C07"),
